@@ -164,6 +164,26 @@ Theorem C10_delete_body_is_source : src_body_reads_delete_ok = true -> forall h 
 Proof. exact delete_body_is_source. Qed.
 Print Assumptions C10_delete_body_is_source.
 
+(* the flush parser reads its expiration only when the extras are as long as the source
+   says, with the width the source says; the header-only parser never touches the buffer
+   (the body such a command announces is skipped by the framing, C09) *)
+Theorem C10_flush_body_is_source : src_flush_read_ok = true -> forall h body,
+  parse_flush h body =
+  if negb (request_valid h false) then DError EInvalidData else
+  if h_extlen h =? fst src_flush_read then
+    match get_n (snd src_flush_read) body with
+    | None => DPanic
+    | Some (exp, _) => DFrame (ReqFlush (negb (h_opcode h =? cmd_Flush)) h exp)
+    end
+  else DFrame (ReqFlush (negb (h_opcode h =? cmd_Flush)) h 0).
+Proof. exact flush_body_is_source. Qed.
+Print Assumptions C10_flush_body_is_source.
+
+Theorem C10_header_only_reads_nothing : src_header_only_reads_nothing = true ->
+  forall h b1 b2, parse_header_only h b1 = parse_header_only h b2.
+Proof. exact header_only_reads_nothing. Qed.
+Print Assumptions C10_header_only_reads_nothing.
+
 (* the generic reader on a concrete set body (8 + 1 + 2 bytes) *)
 Example C10_read_body_nonvacuous :
   read_body (mkHdr 128 1 1 8 0 0 11 0 0) src_body_reads_set
